@@ -239,6 +239,8 @@ def matches(c, s, toks):
         sconsts.add(s.hi)
     if s.values:
         sconsts |= {v for v in s.values if isinstance(v, int)}
+    # constants of range patterns (`2..=5`) reach the signature as spelled tokens
+    sconsts |= {int(t) for t in toks if isinstance(t, str) and t.lstrip("-").isdigit()}
     near = sconsts | {x + 1 for x in sconsts} | {x - 1 for x in sconsts}
     macro_vals = set(c.get("macro_values", {}).values())
     for n in c["names"]:
@@ -423,12 +425,12 @@ def with_helpers(P, fns):
         pass
     from collections import deque
     seen, out = set(), []
-    work = deque(f.path for f in fns)
-    roots = set(work)
-    # breadth first, the paired functions themselves first: a long chain of helpers below one of them (checksum kernels)
-    # must not push another paired function out of the bound
+    work = deque((f.path, 0) for f in fns)
+    # breadth first, the paired functions themselves first, helpers up to three calls deep.  No bound on the count within
+    # that depth: a count bound makes the set depend on the order of the calls, and an edit that only reorders or
+    # extracts code would move a helper in or out of it.
     while work:
-        p = work.popleft()
+        p, depth = work.popleft()
         if p in seen:
             continue
         seen.add(p)
@@ -436,8 +438,8 @@ def with_helpers(P, fns):
         if f is None:
             continue
         out.append(f)
-        if len(out) > 25 + len(roots):
-            break
+        if depth >= 3 or len(out) > 400:
+            continue
         for c in f.live_calls():
             cp = c.callee
             if cp and cp in P.fns and cp not in seen and cp not in paired and (cp.startswith(Z) or cp.startswith("libz_rs_sys::")):
@@ -445,7 +447,7 @@ def with_helpers(P, fns):
                 # only small private helpers: same crate, not a public API entry point
                 if g.j.get("vis") == "Public" and g.is_extern_c:
                     continue
-                work.append(cp)
+                work.append((cp, depth + 1))
     return out
 
 
